@@ -1,0 +1,42 @@
+//! Child module of `subscribers.rs` (feature `verif`): read-only state dump.
+
+use super::{Node, Subscribers};
+use serde_json::{Map, Value};
+use std::collections::BTreeMap;
+
+pub fn snapshot(subscribers: &Subscribers) -> Value {
+    node(&subscribers.data)
+}
+
+fn node(n: &Node) -> Value {
+    let mut out = Map::new();
+    let subs: Vec<Value> = n
+        .subscribers
+        .iter()
+        .map(|s| {
+            Value::String(format!(
+                "{}#{}:{}:{}:{}",
+                s.id.client_id,
+                s.id.transaction_id,
+                if s.is_pstate_subscriber() { "p" } else { "k" },
+                if s.unique { "u" } else { "a" },
+                s.pattern
+                    .iter()
+                    .map(ToString::to_string)
+                    .collect::<Vec<_>>()
+                    .join("/"),
+            ))
+        })
+        .collect();
+    out.insert("s".into(), Value::Array(subs));
+    let mut children = BTreeMap::new();
+    for (k, child) in &n.tree {
+        children.insert(k.to_string(), node(child));
+    }
+    let mut t = Map::new();
+    for (k, v) in children {
+        t.insert(k, v);
+    }
+    out.insert("t".into(), Value::Object(t));
+    Value::Object(out)
+}
